@@ -11,6 +11,7 @@ Decides one property of google/coset:
   5. known findings, evidence, verdict.
 Exit 0 iff every obligation was discharged, the correspondence held and every failure is a listed known finding.
 """
+import sys as _sys; _sys.setrecursionlimit(50000)      # forms of deeply nested values are parsed / rendered recursively
 import sys, os, json, time, re, hashlib, argparse, random, traceback
 
 VERIF = os.path.dirname(os.path.abspath(__file__))
@@ -166,7 +167,9 @@ def main():
     stats = {}
     nontrivial = set()
     for o, a, b in zip(ops, impl, model):
-        v = prop.judge(o, a, b)       # None | ('fail', why) | ('drift', why)
+        try: v = prop.judge(o, a, b)       # None | ('fail', why) | ('drift', why)
+        except RecursionError: v = ('fail' if (a is not None and b is not None and a != b) else None, 'output too deeply nested to judge; implementation and model differ') if a != b else None
+        if v is not None and v[0] is None: v = None
         cls = prop.classify(o, a)
         stats[cls] = stats.get(cls, 0) + 1
         if prop.nontrivial(o, a): nontrivial.add(o['op'])
